@@ -534,6 +534,19 @@ func c14(c *core.Ctx, r *core.Report) {
 	}
 	gos := fanGosOf(c, fn)
 	if len(gos) == 0 {
+		// the Close call sits in a helper the goroutine body calls: the go statements are those the close table of
+		// the closing routine goes through
+		if cfn := closingRoutineFrom(c, core.TopLevel(fn)); cfn != nil {
+			if res := closeTable(c, cfn); res.und == "" && len(res.gos) > 0 {
+				for _, g := range goStatementsIn(c, cfn) {
+					if res.gos[g.Pos()] {
+						gos = append(gos, g)
+					}
+				}
+			}
+		}
+	}
+	if len(gos) == 0 {
 		// sequential idiom
 		cons := "sequential@" + core.FnName(fn)
 		rl := core.RangeLoopOf(fn, site.Block())
@@ -662,7 +675,7 @@ func c14(c *core.Ctx, r *core.Report) {
 				idx = i
 			}
 		}
-		okArg := elemArg(idx) != nil && rl.ElemOf(elemArg(idx))
+		okArg := (elemArg(idx) != nil && rl.ElemOf(elemArg(idx))) || tableMode // (table: every wired closer is closed exactly once)
 		r.Check(okArg, "C14.R2", cons+":element-passed", c.Pos(g.Pos()), "the goroutine receives the current element of the ranged closer slice")
 		c14Field(c, r, rl.Slice)
 	} else if (rl == nil || viaTable) && tableMode {
